@@ -28,6 +28,12 @@ def depfile_engine(tier, seed, wdir):
         cfg = "MC_Depfile_%s_%s.cfg" % (mode, "q" if tier == "quick" else "t")
         mc, vecs = D.tlc_vectors("depfile-" + mode, "Depfile.tla", cfg, workers=6)
         mcs.append(mc)
+        def real(x):
+            return x.replace("~A", "\u00c5").replace("~a", "\u00e0").replace("~g", "\u516c")
+        for v in vecs:
+            v["text"] = real(v["text"])
+            if "deps" in v:
+                v["deps"] = [real(d) for d in v["deps"]]
         s = D.run_vectors("depfile", vecs, wdir, "dep-" + mode)
         res.append((mode, {k: s[k] for k in ("n", "nbad", "counts")}))
         n += s["n"]
